@@ -90,6 +90,8 @@ NONE = lambda: Enum("None", 0, [])
 
 def as_slice(x):
     x = deref(x)
+    if isinstance(x, Enum) and x.variant in ("Borrowed", "Owned") and len(x.fields) == 1:
+        x = deref(x.fields[0])  # Cow<[T]>
     if isinstance(x, VecObj):
         return SliceRef(x, 0, len(x.elems))
     if isinstance(x, SliceRef):
@@ -763,6 +765,78 @@ def m_opt_is_some_and(it, callee, args, m):
     return it.call_closure(args[1], [o.fields[0]])
 
 
+def ordering(name):
+    return Enum(name, ["Less", "Equal", "Greater"].index(name), [])
+
+
+def m_int_cmp(it, callee, args, m):
+    """<usize as Ord>::cmp (decided by forking)"""
+    a, b = deref(args[0]), deref(args[1])
+    lt = (a.t < b.t) if a.signed else z3.ULT(a.t, b.t)
+    if it.ctx.branch(lt):
+        return ordering("Less")
+    if it.ctx.branch(a.t == b.t):
+        return ordering("Equal")
+    return ordering("Greater")
+
+
+def m_binary_search_by(it, callee, args, m):
+    """<[T]>::binary_search_by, as implemented by core (the branch-free halving loop); the comparator is the closure"""
+    sl, clos = as_slice(args[0]), args[1]
+    size = len(sl)
+    if size == 0:
+        return Enum("Err", 1, [usize(0)])
+    base = 0
+
+    def cmp_at(i):
+        r = it.call_closure(clos, [Ref(sl.vec.elems[sl.lo + i])])
+        if not isinstance(r, Enum) or r.variant not in ("Less", "Equal", "Greater"):
+            raise Unsupported("binary_search_by: comparator did not return an Ordering")
+        return r.variant
+    while size > 1:
+        half = size // 2
+        mid = base + half
+        if cmp_at(mid) != "Greater":
+            base = mid
+        size -= half
+    c = cmp_at(base)
+    if c == "Equal":
+        return Enum("Ok", 0, [usize(base)])
+    return Enum("Err", 1, [usize(base + (1 if c == "Less" else 0))])
+
+
+def m_len_utf16(it, callee, args, m):
+    c = deref(args[0])
+    return Int(z3.If(z3.UGE(c.t, 0x10000), z3.BitVecVal(2, 64), z3.BitVecVal(1, 64)))
+
+
+def m_len_utf8(it, callee, args, m):
+    t = z3.ZeroExt(32, deref(args[0]).t)
+    return Int(z3.If(z3.ULT(t, 0x80), z3.BitVecVal(1, 64),
+                     z3.If(z3.ULT(t, 0x800), z3.BitVecVal(2, 64), z3.If(z3.ULT(t, 0x10000), z3.BitVecVal(3, 64), z3.BitVecVal(4, 64)))))
+
+
+def m_opt_zip(it, callee, args, m):
+    a, b = args
+    if a.variant == "Some" and b.variant == "Some":
+        return some(Tup([a.fields[0], b.fields[0]]))
+    return NONE()
+
+
+def m_range_len(it, callee, args, m):
+    """ExactSizeIterator::len of a Range<usize>: end - start, saturating at 0"""
+    r = deref(args[0])
+    lo, hi = r.fields[0], r.fields[1]
+    return Int(z3.If(z3.ULE(lo.t, hi.t), hi.t - lo.t, z3.BitVecVal(0, 64)))
+
+
+def m_opt_is_none_or(it, callee, args, m):
+    o = args[0]
+    if o.variant != "Some":
+        return z3.BoolVal(True)
+    return it.call_closure(args[1], [o.fields[0]])
+
+
 def m_opt_as_ref(it, callee, args, m):
     r = args[0]
     o = deref(r)
@@ -932,6 +1006,11 @@ def ascii_lower(c):
     return z3.If(z3.And(z3.UGE(t, 65), z3.ULE(t, 90)), t + 32, t)
 
 
+def ascii_upper(c):
+    t = c.t
+    return z3.If(z3.And(z3.UGE(t, 97), z3.ULE(t, 122)), t - 32, t)
+
+
 def m_eq_ignore_ascii_case(it, callee, args, m):
     return ascii_lower(deref(args[0])) == ascii_lower(deref(args[1]))
 
@@ -993,6 +1072,35 @@ def m_is_alphanumeric(it, callee, args, m):
     ascii_ = z3.ULE(c.t, 0x7F)
     exact = z3.Or(char_in(c, "0", "9"), char_in(c, "a", "z"), char_in(c, "A", "Z"))
     return z3.If(ascii_, exact, fresh_bool("is_alphanumeric"))
+
+
+def m_is_lowercase(it, callee, args, m):
+    c = deref(args[0])
+    return z3.If(z3.ULE(c.t, 0x7F), char_in(c, "a", "z"), fresh_bool("is_lowercase"))
+
+
+def m_is_uppercase(it, callee, args, m):
+    c = deref(args[0])
+    return z3.If(z3.ULE(c.t, 0x7F), char_in(c, "A", "Z"), fresh_bool("is_uppercase"))
+
+
+def m_to_lowercase(it, callee, args, m):
+    """char::to_lowercase / to_uppercase: exact on ASCII (one char); the Unicode special-casing tables are not
+    modelled, so a path on which the char may be non-ASCII is inconclusive"""
+    c = deref(args[0])
+    if not it.ctx.branch(z3.ULE(c.t, 0x7F)):
+        raise Unsupported("char::to_lowercase/to_uppercase of a non-ASCII char (Unicode case tables are not modelled)")
+    f = ascii_lower if callee.endswith("to_lowercase") else ascii_upper
+    return SeqIter([Int(f(c), 32, False)])
+
+
+def m_cow_slice(it, callee, args, m):
+    return as_slice(args[0])
+
+
+def m_to_vec(it, callee, args, m):
+    sl = as_slice(args[0])
+    return VecObj([copy_val(sl.vec.elems[sl.lo + i].v) for i in range(len(sl))])
 
 
 def m_is_alphabetic(it, callee, args, m):
@@ -1559,6 +1667,7 @@ def m_vec_truncate(it, callee, args, m):
 
 IT = r"(?:<.* as (?:Iterator|DoubleEndedIterator|ExactSizeIterator|IntoIterator)>|Iterator|DoubleEndedIterator)"
 MODELS = [
+    (r"^<Cow<'_, \[.*\]> as (Deref|AsRef<\[.*\]>)>::(deref|as_ref)$", m_cow_slice),
     (r"^<Vec<.*> as IntoIterator>::into_iter$", lambda it, c, a, m: m_vec_into_iter_by_value(it, c, a, m)),
     (r"^<\[.*; \d+\] as IntoIterator>::into_iter$", lambda it, c, a, m: m_array_into_iter(it, c, a, m)),
     (r"^<Option<.*> as IntoIterator>::into_iter$", lambda it, c, a, m: m_opt_into_iter(it, c, a, m)),
@@ -1639,6 +1748,17 @@ MODELS = [
     (r"^Option::<.*>::or$", m_opt_or),
     (r"^Option::<.*>::filter::<", m_opt_filter),
     (r"^Option::<.*>::is_some_and::<", m_opt_is_some_and),
+    (r"^Option::<.*>::is_none_or::<", m_opt_is_none_or),
+    (r"^Option::<.*>::zip::<", m_opt_zip),
+    (r"^(core::)?char::methods::<impl char>::len_utf16$", m_len_utf16),
+    (r"^(core::)?char::methods::<impl char>::len_utf8$", m_len_utf8),
+    (r"^<(usize|u8|u32|u64|char) as Ord>::cmp$", m_int_cmp),
+    (r"^core::slice::<impl \[.*\]>::binary_search_by::<", m_binary_search_by),
+    (r"^<(std::ops::)?Range<usize> as ExactSizeIterator>::len$|^(std::ops::)?Range::<usize>::len$", m_range_len),
+    (r"^core::str::<impl str>::len$", m_string_len),
+    (r"^<\[.*\] as ToSmallVec<.*>>::to_smallvec$", m_into_smallvec),
+    (r"^<&\[.*\] as Into<SmallVec<.*>>>::into$", m_into_smallvec),
+    (r"^Vec::<.*>::is_empty$", m_is_empty),
     (r"^Option::<.*>::(as_ref|as_mut)$", m_opt_as_ref),
     (r"^Option::<.*>::take$", m_opt_take),
     (r"^(std|core)::cmp::max::<usize>$|^<usize as Ord>::max$|^core::cmp::Ord::max$", m_int_max),
@@ -1710,6 +1830,12 @@ MODELS = [
     (r"^(core::)?char::methods::<impl char>::is_alphanumeric$", m_is_alphanumeric),
     (r"^(core::)?char::methods::<impl char>::is_alphabetic$", m_is_alphabetic),
     (r"^(core::)?char::methods::<impl char>::is_numeric$", m_is_numeric),
+    (r"^(core::)?char::methods::<impl char>::is_lowercase$", m_is_lowercase),
+    (r"^(core::)?char::methods::<impl char>::is_uppercase$", m_is_uppercase),
+    (r"^(core::)?char::methods::<impl char>::to_(lower|upper)case$", m_to_lowercase),
+    (r"^SmallVec::<.*>::to_vec$|^(core|std)::slice::<impl \[.*\]>::to_vec$|^SmallVec::<.*>::into_vec$", m_to_vec),
+    (r"^SmallVec::<.*>::with_capacity$", m_vec_new),
+    (r"^<SmallVec<.*> as Extend<.*>>::extend::<", m_vec_extend_vec),
     (IT + r"::collect::<(std::string::)?String>$", m_collect_string),
     (r"^<(std::string::)?String as Deref>::deref$", m_string_deref),
     (r"^(std::string::)?String::len$", m_string_len),
